@@ -32,6 +32,8 @@ func (d *DebugUpgrader) Upgrade(conn io.ReadWriter) (hs ws.Handshake, err error)
 		r io.Reader = conn
 		w io.Writer = conn
 	)
+	// reportRequest, when set, reports the request after the Upgrade().
+	var reportRequest func()
 	if onRequest := d.OnRequest; onRequest != nil {
 		var buf bytes.Buffer
 		// First, we must read the entire request.
@@ -42,12 +44,26 @@ func (d *DebugUpgrader) Upgrade(conn io.ReadWriter) (hs ws.Handshake, err error)
 			// Fulfill the buffer with the response body.
 			io.Copy(ioutil.Discard, req.Body)
 			req.Body.Close()
-		}
-		onRequest(buf.Bytes())
 
-		r = io.MultiReader(
-			&buf, conn,
-		)
+			onRequest(buf.Bytes())
+
+			r = io.MultiReader(
+				&buf, conn,
+			)
+		} else {
+			// Not a request the HTTP parser understands, but maybe one the
+			// Upgrader accepts: the rest of it is still to come. Keep
+			// recording what the Upgrader reads and report the request when
+			// the handshake is over.
+			bts := append([]byte(nil), buf.Bytes()...)
+			r = io.MultiReader(
+				bytes.NewReader(bts),
+				io.TeeReader(conn, &buf),
+			)
+			reportRequest = func() {
+				onRequest(buf.Bytes())
+			}
+		}
 	}
 
 	if onResponse := d.OnResponse; onResponse != nil {
@@ -59,6 +75,10 @@ func (d *DebugUpgrader) Upgrade(conn io.ReadWriter) (hs ws.Handshake, err error)
 		defer func() {
 			onResponse(buf.Bytes())
 		}()
+	}
+	if reportRequest != nil {
+		// Deferred last, thus called first: request, then response.
+		defer reportRequest()
 	}
 
 	return d.Upgrader.Upgrade(struct {
